@@ -700,3 +700,70 @@ func (p *Program) callbackSites(g *FuncInfo, ref NodeRef, isArg func(ast.Expr) b
 	}
 	return out
 }
+
+// condGuards returns the atoms whose value is known when the sub-expression target of the condition cond is evaluated:
+// go/cfg keeps a short-circuit condition as one node, so the order inside it is read off the expression itself
+// (in `a || b` b runs only when a was false, in `a && b` only when a was true).
+func condGuards(cond ast.Expr, target ast.Node) []Atom {
+	contains := func(e ast.Expr) bool { return e.Pos() <= target.Pos() && target.End() <= e.End() }
+	var out []Atom
+	e := cond
+	for {
+		switch x := e.(type) {
+		case *ast.ParenExpr:
+			e = x.X
+			continue
+		case *ast.UnaryExpr:
+			if x.Op == token.NOT && contains(x.X) {
+				e = x.X
+				continue
+			}
+		case *ast.BinaryExpr:
+			if x.Op == token.LOR || x.Op == token.LAND {
+				if contains(x.X) {
+					e = x.X
+					continue
+				}
+				if contains(x.Y) {
+					out = append(out, Implied(x.X, x.Op == token.LAND)...)
+					e = x.Y
+					continue
+				}
+			}
+		}
+		return out
+	}
+}
+
+// PassedIn is Passed for a sub-expression target of the node at ref: it also counts what the operands in front of target,
+// inside the same short-circuit condition, establish.
+func (s *PassSpec) PassedIn(f *FuncInfo, ref NodeRef, target ast.Node, id string) bool {
+	if s.Passed(f, ref, id) {
+		return true
+	}
+	cond, ok := ref.Node().(ast.Expr)
+	if !ok || target == nil {
+		return false
+	}
+	info := f.Info()
+	for _, a := range condGuards(cond, target) {
+		for _, v := range s.Vias {
+			if v.Cond != nil {
+				if vid, passVal, ok := v.Cond(f, a.E); ok && vid == id && a.Val == passVal {
+					return true
+				}
+			}
+		}
+		if call, passVal, ok := callTest(info, a.E); ok {
+			for _, v := range s.Vias {
+				if v.Call == nil || v.Immediate {
+					continue
+				}
+				if vid, ok := v.Call(f, call); ok && vid == id && a.Val == passVal {
+					return true
+				}
+			}
+		}
+	}
+	return false
+}
